@@ -245,12 +245,46 @@ func checkCov(c covCase) *vk.Failure {
 
 	// --- principal components: variances are the eigenvalues of the covariance
 	var pc stat.PC
-	if !pc.PrincipalComponents(x, w) {
+	if c.Seed%2 == 0 {
+		// a reused receiver: an earlier analysis of other data of another shape
+		// on the same value, weighted if and only if this one is not
+		pn, pd := 3+int(c.Seed>>8%5), 1+int(c.Seed>>16%4)
+		r := vk.NewSplitMix(c.Seed ^ 0x70ca)
+		prev := mat.NewDense(pn, pd, nil)
+		for i := 0; i < pn; i++ {
+			for j := 0; j < pd; j++ {
+				prev.Set(i, j, r.Finite())
+			}
+		}
+		var pw []float64
+		if w == nil {
+			pw = make([]float64, pn)
+			for i := range pw {
+				pw[i] = 1.5 + float64(i)
+			}
+		}
+		pc.PrincipalComponents(prev, pw)
+		vk.Class("pca reused receiver")
+	}
+	wIn := cloneF(w)
+	if !pc.PrincipalComponents(x, wIn) {
 		vk.Inconclusive("pca-svd-failed")
 		return nil
 	}
 	k := min(n, d)
 	vars := pc.VarsTo(nil)
+	// the analysis is finished: what the caller does with its weights buffer
+	// afterwards must not change it
+	for i := range wIn {
+		wIn[i] = 100 + float64(i)
+	}
+	if again := pc.VarsTo(nil); len(again) == len(vars) {
+		for i := range vars {
+			if !vk.SameBits(vars[i], again[i]) {
+				return vk.Failf("pca-vars-follow-callers-weights-buffer", "VarsTo = %v, and %v after the caller overwrote the weights slice it had passed %s", vars, again, ctx)
+			}
+		}
+	}
 	var vecs mat.Dense
 	pc.VectorsTo(&vecs)
 	if len(vars) != k {
